@@ -37,6 +37,10 @@ def construct (copies : Bool) (src : Obj) (h : Heap) : Obj × Heap :=
 /-- what the caller sees when looking at its own data -/
 def view (o : Obj) (h : Heap) : List (List Int) := o.rows.map fun a => h.getD a []
 
+/-- `[line[:] for line in matrix]`: for a list of lists every slice is a fresh row; the rows of a two-dimensional numpy array are
+views of the array's buffer, a slice of a view is the same memory -/
+def rowSlices (isArray : Bool) (src : Obj) (h : Heap) : Obj × Heap := construct (!isArray) src h
+
 def runOps (o : Obj) (h : Heap) (ops : List Op) : Heap := ops.foldl (applyOp o) h
 
 end Verif.Heap
